@@ -16,36 +16,145 @@ func init() {
 }
 
 // registry: every name -> function registered by init functions.
-func (c *Ctx) registry() map[string]*ssa.Function {
-	out := map[string]*ssa.Function{}
+type registration struct {
+	fn        *ssa.Function
+	immediate bool
+}
+
+// registrations resolves what the init functions register under each name, from the registration calls themselves:
+// Register…("name", Fn) with a constant name, or a loop over a table literal of {name, function, flag} records whose
+// fields are handed to the registration calls (the flag selecting RegisterImmediateFunction).
+func (c *Ctx) registrations() map[string]registration {
+	out := map[string]registration{}
+	fnOf := func(v ssa.Value) *ssa.Function {
+		for {
+			if ct, ok := v.(*ssa.ChangeType); ok {
+				v = ct.X
+				continue
+			}
+			break
+		}
+		switch x := v.(type) {
+		case *ssa.Function:
+			return x
+		case *ssa.MakeClosure:
+			return x.Fn.(*ssa.Function)
+		}
+		return nil
+	}
+	// the field of a table record a value was read from (-1: not a record field)
+	fieldOf := func(v ssa.Value) int {
+		for {
+			if ct, ok := v.(*ssa.ChangeType); ok {
+				v = ct.X
+				continue
+			}
+			break
+		}
+		switch x := v.(type) {
+		case *ssa.Field:
+			return x.Field
+		case *ssa.UnOp:
+			if fa, ok := x.X.(*ssa.FieldAddr); ok && x.Op == token.MUL {
+				return fa.Field
+			}
+		}
+		return -1
+	}
 	for _, f := range c.P.ModFuncs {
-		if !strings.HasPrefix(f.Name(), "init") {
+		if !strings.HasPrefix(f.Name(), "init") || f.Parent() != nil {
 			continue
 		}
+		// table literals of the init function: element index -> field index -> stored value
+		tables := map[*ssa.Alloc]map[int64]map[int]ssa.Value{}
 		allInstrs(f, func(_ *ssa.BasicBlock, in ssa.Instruction) {
+			st, ok := in.(*ssa.Store)
+			if !ok {
+				return
+			}
+			fa, ok := st.Addr.(*ssa.FieldAddr)
+			if !ok {
+				return
+			}
+			ia, ok := fa.X.(*ssa.IndexAddr)
+			if !ok {
+				return
+			}
+			arr, ok := ia.X.(*ssa.Alloc)
+			k, isK := constIntOf(ia.Index)
+			if !ok || !isK {
+				return
+			}
+			if tables[arr] == nil {
+				tables[arr] = map[int64]map[int]ssa.Value{}
+			}
+			if tables[arr][k] == nil {
+				tables[arr][k] = map[int]ssa.Value{}
+			}
+			tables[arr][k][fa.Field] = st.Val
+		})
+		allInstrs(f, func(b *ssa.BasicBlock, in ssa.Instruction) {
 			call, ok := in.(*ssa.Call)
 			if !ok || call.Common().StaticCallee() == nil || len(call.Common().Args) != 2 || !strings.HasPrefix(call.Common().StaticCallee().Name(), "Register") || strings.Contains(call.Common().StaticCallee().Name(), "TopLevel") {
 				return
 			}
-			s, isC := constString(call.Common().Args[0])
-			if !isC {
+			imm := strings.Contains(call.Common().StaticCallee().Name(), "Immediate")
+			if s, isC := constString(call.Common().Args[0]); isC {
+				if fn := fnOf(call.Common().Args[1]); fn != nil {
+					out[s] = registration{fn, imm}
+				}
 				return
 			}
-			v := call.Common().Args[1]
-			for {
-				if ct, ok := v.(*ssa.ChangeType); ok {
-					v = ct.X
-					continue
-				}
-				break
+			nameF, fnF := fieldOf(call.Common().Args[0]), fieldOf(call.Common().Args[1])
+			if nameF < 0 || fnF < 0 {
+				return
 			}
-			switch x := v.(type) {
-			case *ssa.Function:
-				out[s] = x
-			case *ssa.MakeClosure:
-				out[s] = x.Fn.(*ssa.Function)
+			// the condition on a flag field under which this call runs
+			flagF, flagWant, hasFlag := -1, false, false
+			for _, fc := range factsAt(b) {
+				cond, truth := fc.cond, fc.truth
+				for {
+					u, isU := cond.(*ssa.UnOp)
+					if !isU || u.Op != token.NOT {
+						break
+					}
+					cond, truth = u.X, !truth
+				}
+				if k := fieldOf(cond); k >= 0 {
+					flagF, flagWant, hasFlag = k, truth, true
+				}
+			}
+			for _, elems := range tables {
+				for _, rec := range elems {
+					nm, isC := constString(rec[nameF])
+					fn := fnOf(rec[fnF])
+					if !isC || fn == nil {
+						continue
+					}
+					if hasFlag {
+						fv, isB := rec[flagF].(*ssa.Const)
+						val := false
+						if isB && fv.Value != nil && fv.Value.Kind() == constant.Bool {
+							val = constant.BoolVal(fv.Value)
+						} else if rec[flagF] != nil {
+							continue
+						}
+						if val != flagWant {
+							continue
+						}
+					}
+					out[nm] = registration{fn, imm}
+				}
 			}
 		})
+	}
+	return out
+}
+
+func (c *Ctx) registry() map[string]*ssa.Function {
+	out := map[string]*ssa.Function{}
+	for n, r := range c.registrations() {
+		out[n] = r.fn
 	}
 	return out
 }
